@@ -45,6 +45,8 @@ extern unsigned verif_c_vfy_calls; extern int verif_c_vfy_bad; extern size_t ver
 extern unsigned verif_rv_calls; extern unsigned verif_rv_ci; extern size_t verif_rv_ci_snlen; extern int verif_rv_ci_seen; extern int verif_rv_ci_cmp; extern int verif_rv_ci_cmp_seen;
 extern size_t verif_rv_last_sn; extern size_t verif_rv_last_snlen; extern size_t verif_rv_ci_sn;
 extern int verif_rvm_last; extern size_t verif_rvm_n; extern size_t verif_rvm_a; extern size_t verif_rvm_b; extern unsigned verif_rvm_calls;
+/* ghost record of CMS SignerInfo verification (set only by the replaced contract in the SignedData proof) */
+extern unsigned verif_cms_vfy_calls; extern int verif_cms_vfy_bad; extern size_t verif_cms_vfy_ctx; extern size_t verif_cms_vfy_certs;
 /* ghost record of a trust-store lookup */
 extern int verif_l_ne_last; extern size_t verif_l_ne_a_of; extern size_t verif_l_gs_of; extern unsigned verif_l_calls;
 #else
